@@ -379,25 +379,37 @@ def run_r5(chk: Check, prog: Program, S: Summaries) -> None:
     hooks = {k: v for k, v in S.hooks().items() if k not in CLONE_QUALS and "clone" not in k}
     n = 0
     for spec in trees:
-        for pos in _positions(spec):
-            def body(it: Interp, spec=spec, pos=pos):
+        allpos = list(_positions(spec))
+        for pos, earlier in [(q, None) for q in allpos] + \
+                [(q, e) for q in allpos for e in (allpos[0], allpos[-1]) if e != q and len(allpos) <= 7]:
+            def body(it: Interp, spec=spec, pos=pos, earlier=earlier):
                 pat = Pat(it)
                 root = pat.build(spec)
                 it._set_entry(it.cells[root.cid], "parent", None)
-                cur = root
-                for i in pos:
-                    cell = it.cells[cur.cid]
-                    if cell.entry.get("left") is None:
-                        cur = cell.entry["right"]
-                    else:
-                        cur = cell.entry["left"] if i == 0 else cell.entry["right"]
+
+                def at(path):
+                    cur = root
+                    for i in path:
+                        cell = it.cells[cur.cid]
+                        if cell.entry.get("left") is None:
+                            cur = cell.entry["right"]
+                        else:
+                            cur = cell.entry["left"] if i == 0 else cell.entry["right"]
+                    return cur
+                if earlier is not None:
+                    # the same tree object was asked before, for another node: nothing of that call may show in this one
+                    it.call_function(m, [at(earlier)], {})
+                    it.events.append(("phase", "second-request"))
+                cur = at(pos)
                 it.arg = cur
                 return it.call_function(m, [cur], {})
             for p in explore(prog, body, {"max_updepth": 0, "hooks": hooks, "max_inline": 80, "max_steps": 60000}, max_paths=64):
                 n += 1
                 it = p.interp
-                label = f"clone_from_root on the node at {'/'.join('LR'[i] for i in pos) or 'root'} of {_spec_str(spec)} :: {p.cond[-120:]}"
-                key = "C13.R5:MathExpression.clone_from_root"
+                label = f"clone_from_root on the node at {'/'.join('LR'[i] for i in pos) or 'root'} of {_spec_str(spec)}" + \
+                        (f" after an earlier request for the node at {'/'.join('LR'[i] for i in earlier) or 'root'}" if earlier is not None else "") + \
+                        f" :: {p.cond[-120:]}"
+                key = "C13.R5:MathExpression.clone_from_root" + (":second-request" if earlier is not None else "")
                 if p.outcome == "bound":
                     chk.undecided("C13.R5", key + ":bound", label, p.note, m.where)
                     continue
